@@ -1492,6 +1492,14 @@ def canon (genv : List (Name × Nat)) : Nat → List (Name × Nat) → Nat → S
           let r := bindParams env lvl binders
           let pairs' := (r.1.zip inits).map (fun bi => Sexp.list [bi.1, bi.2] false)
           .list (.kw .let_ :: .list pairs' pimp :: canonList genv f r.2.1 r.2.2 body) imp
+      | .kw .let_ :: .id name _ :: .list pairs pimp :: body =>
+          -- named let: the inits are outside, the name and the binders scope over the body
+          let inits := canonInits genv f env lvl pairs
+          let binders := pairs.map (fun p => match p with | .list (x :: _) _ => x | e => e)
+          let r := bindParams ((name, lvl) :: env) (lvl + 1) binders
+          let pairs' := (r.1.zip inits).map (fun bi => Sexp.list [bi.1, bi.2] false)
+          .list (.kw .let_ :: .id (canonName lvl) Mark.plain :: .list pairs' pimp ::
+                 canonList genv f r.2.1 r.2.2 body) imp
       | .kw .define :: .list (fn :: ps) pimp :: body =>
           let r := bindParams env lvl ps
           .list (.kw .define :: .list (canon genv f env lvl fn :: r.1) pimp ::
